@@ -765,3 +765,159 @@ Proof.
   intros. pose proof (rfc_cmp_antisym (KBGP (bgp_key_of b)) (KBGP (bgp_key_of a))) as H.
   cbn [rfc_cmp] in H. rewrite !bgp_select_is_rfc. exact H.
 Qed.
+
+(* ================= H. the ECMP set is exactly the candidates that are equal-cost with the best ===== *)
+
+Definition cost_cmp (a b : bgp_key) : Z :=
+  prefer_high (k_lp a) (k_lp b) ;; prefer_low (k_aslen a) (k_aslen b) ;;
+  prefer_low (k_origin a) (k_origin b) ;; prefer_low (k_med a) (k_med b).
+
+Lemma rfc_cost : forall a b, exists rest, rfc_cmp_bgp a b = (cost_cmp a b ;; rest).
+Proof.
+  intros. eexists. unfold rfc_cmp_bgp, cost_cmp. rewrite !andthen_assoc. reflexivity.
+Qed.
+
+Lemma andthen_ne1 : forall c d, (c ;; d) <> 1%Z -> c <> 1%Z.
+Proof. intros c d H E. subst. apply H. reflexivity. Qed.
+
+Lemma andthen_opp : forall c d, (- (c ;; d))%Z = ((- c)%Z ;; (- d)%Z).
+Proof.
+  intros. unfold andthen. destruct (Z.eqb_spec c 0) as [E|NE].
+  - subst. reflexivity.
+  - destruct (Z.eqb_spec (- c) 0); [lia | reflexivity].
+Qed.
+
+Lemma andthen_range : forall c d,
+  (c = 1 \/ c = 0 \/ c = -1)%Z -> (d = 1 \/ d = 0 \/ d = -1)%Z ->
+  ((c ;; d) = 1 \/ (c ;; d) = 0 \/ (c ;; d) = -1)%Z.
+Proof. intros c d Hc Hd. destruct Hc as [Hc|[Hc|Hc]]; subst; cbn; auto. Qed.
+
+Lemma cost_cmp_range : forall a b, (cost_cmp a b = 1 \/ cost_cmp a b = 0 \/ cost_cmp a b = -1)%Z.
+Proof.
+  intros. unfold cost_cmp, prefer_low. repeat apply andthen_range; apply prefer_high_range.
+Qed.
+
+Lemma cost_cmp_antisym : forall a b, cost_cmp a b = (- cost_cmp b a)%Z.
+Proof.
+  intros. unfold cost_cmp, prefer_low. rewrite !andthen_opp.
+  rewrite <- !prefer_high_antisym. reflexivity.
+Qed.
+
+Lemma prefer_high_0 : forall x y, prefer_high x y = 0%Z <-> x = y.
+Proof.
+  intros. unfold prefer_high. destruct (N.compare_spec x y); split; intro H0; try discriminate; try lia; auto.
+Qed.
+
+Lemma andthen_0 : forall c d, (c ;; d) = 0%Z <-> c = 0%Z /\ d = 0%Z.
+Proof.
+  intros. unfold andthen. destruct (Z.eqb_spec c 0); split; intro H; try tauto; try lia.
+Qed.
+
+Lemma cost_cmp_0 : forall a b, cost_cmp a b = 0%Z <-> ecmp_key (KBGP a) (KBGP b) = true.
+Proof.
+  intros. unfold cost_cmp, prefer_low. cbn [ecmp_key].
+  rewrite !andthen_0, !prefer_high_0, !andb_true_iff, !N.eqb_eq. intuition congruence.
+Qed.
+
+Lemma cost_cmp_congr : forall a b c,
+  ecmp_key (KBGP a) (KBGP c) = true -> cost_cmp c b = cost_cmp a b.
+Proof.
+  intros a b c H. cbn [ecmp_key] in H. rewrite !andb_true_iff, !N.eqb_eq in H.
+  destruct H as [[[E1 E2] E3] E4]. unfold cost_cmp. rewrite E1, E2, E3, E4. reflexivity.
+Qed.
+
+Lemma ecmp_key_refl : forall a, ecmp_key a a = true.
+Proof. intros [x|x]; cbn; [reflexivity|]. rewrite !N.eqb_refl. reflexivity. Qed.
+
+Lemma ecmp_key_sym : forall a b, ecmp_key a b = ecmp_key b a.
+Proof.
+  intros [x|x] [y|y]; cbn; try reflexivity.
+  rewrite (N.eqb_sym (k_lp x)), (N.eqb_sym (k_aslen x)), (N.eqb_sym (k_origin x)), (N.eqb_sym (k_med x)).
+  reflexivity.
+Qed.
+
+Lemma ecmp_key_trans_eq : forall a b, ecmp_key a b = true -> forall c, ecmp_key a c = ecmp_key b c.
+Proof.
+  intros [x|x] [y|y] H [z|z]; cbn in *; try discriminate; try reflexivity.
+  rewrite !andb_true_iff, !N.eqb_eq in H. destruct H as [[[E1 E2] E3] E4].
+  rewrite E1, E2, E3, E4. reflexivity.
+Qed.
+
+Lemma ecmp_convex : forall a b c,
+  Rkey a b -> Rkey b c -> ecmp_key a c = true -> ecmp_key a b = true.
+Proof.
+  unfold Rkey. intros [x|x] [y|y] [z|z] H1 H2 H; cbn in *; try discriminate; try reflexivity;
+    try (exfalso; apply H1; reflexivity); try (exfalso; apply H2; reflexivity).
+  destruct (rfc_cost y x) as [r1 E1]. destruct (rfc_cost z y) as [r2 E2].
+  rewrite E1 in H1. rewrite E2 in H2. apply andthen_ne1 in H1, H2.
+  fold (ecmp_key (KBGP x) (KBGP z)) in H. fold (ecmp_key (KBGP x) (KBGP y)).
+  rewrite (cost_cmp_congr _ _ _ H) in H2.
+  apply cost_cmp_0. rewrite (cost_cmp_antisym y x) in H1.
+  destruct (cost_cmp_range x y) as [E|[E|E]]; lia.
+Qed.
+
+Lemma filter_none : forall (A : Type) (f : A -> bool) l, (forall x, In x l -> f x = false) -> filter f l = [].
+Proof.
+  induction l as [|x l IH]; intro H; [reflexivity|]. cbn. rewrite (H x (or_introl eq_refl)).
+  apply IH. intros y Hy. apply H. right. assumption.
+Qed.
+
+Definition count_equal_cost (ks : list key) : N :=
+  match ks with [] => 0 | k :: _ => N.of_nat (length (filter (ecmp_key k) ks)) end.
+
+Lemma ecmp_count_keys_cons2 : forall a b t,
+  ecmp_count_keys (a :: b :: t) = if ecmp_key a b then N.succ (ecmp_count_keys (b :: t)) else 1.
+Proof. reflexivity. Qed.
+
+Lemma ecmp_count_exact : forall ks, StronglySorted Rkey ks -> ecmp_count_keys ks = count_equal_cost ks.
+Proof.
+  induction ks as [|a ks IH]; intro S; [reflexivity|].
+  apply StronglySorted_inv in S as [S Fa]. specialize (IH S).
+  destruct ks as [|b t]; [cbn; rewrite ecmp_key_refl; reflexivity|].
+  rewrite ecmp_count_keys_cons2. unfold count_equal_cost at 1. cbn [filter]. rewrite ecmp_key_refl.
+  destruct (ecmp_key a b) eqn:E.
+  - rewrite IH. unfold count_equal_cost. cbn [filter]. rewrite ecmp_key_refl.
+    rewrite (filter_ext _ _ (ecmp_key_trans_eq a b E) t). cbn [length].
+    rewrite <- !Nat2N.inj_succ. reflexivity.
+  - rewrite filter_none; [reflexivity|].
+    intros c Hc. destruct (ecmp_key a c) eqn:Ec; [|reflexivity].
+    apply StronglySorted_inv in S as [_ Fb]. rewrite Forall_forall in Fa, Fb.
+    rewrite <- E. symmetry. eapply ecmp_convex; [apply Fa; left; reflexivity | apply Fb; exact Hc | exact Ec].
+Qed.
+
+Lemma perm_filter_length : forall (A : Type) (f : A -> bool) l l',
+  Permutation l l' -> length (filter f l) = length (filter f l').
+Proof.
+  intros A f l l' P. induction P as [|x l l' P IH|x y l|l l' l'' P1 IH1 P2 IH2]; cbn.
+  - reflexivity.
+  - destruct (f x); cbn; congruence.
+  - destruct (f x), (f y); reflexivity.
+  - congruence.
+Qed.
+
+Lemma Ok_inj' : forall (A : Type) (x y : A), Some x = Some y -> x = y.
+Proof. intros A x y H. injection H. auto. Qed.
+
+Lemma filter_map_len : forall b l,
+  length (filter (ecmp_key (key_of b)) (map key_of l)) = length (filter (equal_cost b) l).
+Proof.
+  induction l as [|y l IH]; [reflexivity|].
+  cbn [map filter]. change (equal_cost b y) with (ecmp_key (key_of b) (key_of y)).
+  destruct (ecmp_key (key_of b) (key_of y)); cbn [length]; rewrite IH; reflexivity.
+Qed.
+
+Theorem ecmp_set_exact : forall c o b,
+  sort_admits (map embed c) o -> best o = Some (embed b) ->
+  ecmp_count o = Ok (N.of_nat (length (filter (equal_cost b) c))).
+Proof.
+  intros c o b A Hb. apply admits_embed in A as [w [-> [P S]]].
+  rewrite ecmp_count_is_keys. f_equal.
+  rewrite ecmp_count_exact.
+  - destruct w as [|x w]; [discriminate|]. cbn in Hb.
+    assert (Ex : key_of x = key_of b).
+    { apply Ok_inj' in Hb. pose proof (f_equal pkey Hb) as K. rewrite !pkey_embed in K. injection K. auto. }
+    unfold count_equal_cost. cbn [map].
+    change (key_of x :: map key_of w) with (map key_of (x :: w)).
+    rewrite Ex, filter_map_len. f_equal. symmetry. apply perm_filter_length. assumption.
+  - apply Sorted_StronglySorted; [exact Rkey_trans | apply sorted_paths_keys; assumption].
+Qed.
